@@ -46,12 +46,12 @@ PROPS = {
     "C10": {
         "title": "Packed k-mers behave as length-K strings",
         "kani": lambda tier: kfam(C10_FAMS, tier) + tables(["t_bits_to_ascii", "t_base_to_bits"]),
-        "verus": [("kmertext", r"^(KmerText::fmt_debug_int|KmerText::fmt_debug_var|Kmer::to_string|bits_to_base)$")],
+        "verus": [("kmertext", r"^(KmerText::fmt_debug_int|KmerText::fmt_debug_var|Kmer::to_string|bits_to_base|base_to_bits|KmerDefaults::(extend_default|from_bytes_default|from_ascii_default))$")],
         "bounded": lambda tier: [],
         "design_ref": "DESIGN.md §6 C10",
         "undecided": [],
         "trust": ["Verus 0.2026.09.13 / Z3; extractor rules (verus/extract.py); R4: core::fmt renders a char / String as itself; the trait-level Mer/Kmer contract used by the text functions is the one Kani discharges per shipped type (families k_get, k_len)"],
-        "level_text": "Text rendering: the real default body of Kmer::to_string and the real bodies of Debug for IntKmer / VarIntKmer are proved, for every K and every value, to produce exactly the K letters of the k-mer (Verus unit kmertext, against the trait contract). Every Mer/Kmer operation of each shipped k-mer type is proved equal to the same operation on the K-letter string for ALL storage values and all in-range arguments: Kani contract harnesses over a fully symbolic storage word, loop-free or K-bounded with unwinding assertions (complete, not sampled).",
+        "level_text": "Text rendering: the real default body of Kmer::to_string and the real bodies of Debug for IntKmer / VarIntKmer are proved, for every K and every value, to produce exactly the K letters of the k-mer (Verus unit kmertext, against the trait contract); the real default bodies of Kmer::extend, from_bytes and from_ascii are proved once, for every implementation that does not override them, against the primitive contracts empty / set_mut / extend_left / extend_right (same unit). Every Mer/Kmer operation of each shipped k-mer type is proved equal to the same operation on the K-letter string for ALL storage values and all in-range arguments: Kani contract harnesses over a fully symbolic storage word, loop-free or K-bounded with unwinding assertions (complete, not sampled).",
         "level_note": "Trusted: rustc->MIR, Kani/CBMC soundness. Preconditions (derived from call sites): bases < 4, from_u64(v) with v < 4^K, set_slice_mut with 1<=n<=32 and pos+n<=K. quick = 11 representative types, thorough = all 19.",
     },
     "C11": {
@@ -115,7 +115,12 @@ LMER_WIDE_QUICK = ("l_new", "l_get", "l_set_mut", "l_wf_canonical")  # cheap fam
 # Enumerated native fallbacks (run only when a Verus unit is undecided and no Kani harness is tractable): the contract function is run
 # on the REAL crate for every combination of the listed values (one domain per drawn value, in draw order) - a bounded, enumerated
 # check; a failure is a replayable violation, a clean run leaves the unit undecided.
+_B4 = (1, [0, 1, 2, 3])
 UNIT_FALLBACK_ENUM = {
+    "gfalinks": [("graph::verif::g_gfa_export_long", [(1, list(range(16)))],
+                  "GFA export of the Kmer16 graph of one 300-base pseudo-random read, 16 seeds, enumerated natively: one S line per node with its id and ACGT sequence (nodes of >= 256 bases occur)"),
+                 ("graph::verif::g_gfa_links_read", [(8, [8])] + [_B4] * 8,
+                  "GFA export of the unstranded Kmer5 graph of every 8-base read (65536 reads), enumerated natively: every adjacency has an L line")],
     "summarize": [("filter::verif::f_count_filter_set_2",
                    [(8, [0, 1, 2]), (8, [0, 1, 2, 3]), (1, [0, 1, 7]), (1, [0, 17, 130]), (1, [0, 1, 7]), (1, [0, 17, 68]), (1, [0, 1, 7])],
                    "CountFilterSet::summarize, enumerated natively: <= 2 observations, thresholds 0..3, labels in {0,1,7}, three extension bytes (2916 cases)")],
@@ -223,13 +228,13 @@ PROPS["C16"] = {
     "title": "ASCII ingestion is total and path-independent",
     "kani": lambda tier: tables(TABLES_ALL) + ["bitops_avx2::verif::a_block"],
     "verus": [("hashn", r"^DnaString::(from_acgt_bytes_hashn|dna_only_step|from_dna_only_string)$|^(dna_only_base_to_bits|lemma_runs_close|lemma_runs_skip|lemma_runs_finish)$"),
-              ("extend", r"^DnaString::(extend|from_acgt_scalar|acgt_vec_step|acgt_vec_finish|from_dna_string|to_ascii_vec)$|^(lemma_vec_path|lemma_vec_path_upto|lemma_packed_tail_\w+|base_to_bits|collect_map|bits_to_ascii)$")],
+              ("extend", r"^DnaString::(extend|from_acgt_bytes|from_acgt_scalar|acgt_vec_step|acgt_vec_finish|from_dna_string|to_ascii_vec)$|^(lemma_vec_path|lemma_vec_path_upto|lemma_packed_tail_\w+|base_to_bits|collect_map|bits_to_ascii)$")],
     "bounded": lambda tier: [("dna_string::verif::d_from_acgt_bytes_b_31", "from_acgt_bytes on 31 bytes, vector path available and not (feature detection nondeterministic)"),
                              ("dna_string::verif::d_from_acgt_bytes_b_70", "from_acgt_bytes on 70 bytes: two vector blocks plus a 6-byte tail, vector path available and not"),
                              ("dna_string::verif::d_to_bytes_b_33", "to_ascii_vec on 33 bases"),
                              ("dna_string::verif::d_hashn_concrete", "from_acgt_bytes_hashn on eight concrete 8-byte reads (a fixed-input check, not a proof)")],
     "design_ref": "DESIGN.md §6 C16",
-    "undecided": ["from_acgt_bytes: its scalar path (with_capacity; map base_to_bits; extend) and every trip and the closing statement of its vector path are under contract for every length and lemma_vec_path composes the trips into `wf and view == base_to_bits of every byte` - the same string on both paths; what is NOT verified is the `for chunk in bytes.chunks(32)` header itself (that chunks(32) yields bytes[32i .. min(32i+32, n)]) and the `is_x86_feature_detected!` branch",
+    "undecided": ["from_acgt_bytes IS proved as a whole function (unit extend): whichever path runs, the result is well formed and spells base_to_bits of every byte (`r.wf() && r.view() == codes(bytes)`) - so the two paths agree with each other and with from_dna_string on ASCII text; assumed, as R21 seams: `bytes.chunks(32)` yields bytes[32i .. min(32i+32, n)] in order, `is_x86_feature_detected!` is some bool (both answers covered), the two `iter().map(f)` chains, and the block functions convert_bases / pack_32_bases by the contract Kani a_block proves; its pieces (scalar path, one vector trip, closing statement, lemma_vec_path) stay under contract on their own",
                   "from_dna_only_string IS proved as a whole function (unit hashn, runs_post: the result is exactly the maximal runs of ACGT letters of the text, in order, each non-empty and translated letter by letter; every letter lies in one run) - `dna.chars()` being a seam (R21) with the assumed meaning `the chars of the text in order`, and for chars outside Latin-1 the real code's `c as u8` truncation applies (a char whose low byte is an ACGT letter counts as that letter - recorded, the property speaks of ASCII input); from_acgt_bytes_hashn IS decided (unit hashn), but relative to std's hasher being a function of the bytes fed (vstd's DefaultHasher specification plus assumed contracts for the two Hash::hash calls and for cloning the hasher)"],
     "trust": VERUS_TRUST + [ADAPTER_NOTE, "Verus unit extend calls convert_bases / pack_32_bases by the contract that Kani harness a_block proves on the real code (lane t of the packed word is base_to_bits(block[t]))", "the two AVX2 intrinsic models (_mm256_shuffle_epi8, _mm256_testc_si256) follow the Intel SDM; validated natively against the CPU by `debruijn-replay --validate-avx-models`, not proved"],
     "level_text": "The six byte tables are proved for all 256 byte values and the vector path (convert_bases + pack_32_bases, real code incl. unsafe loadu) is proved equal to the scalar path on ALL 256^32 blocks, lane by lane, with the valid flag exact (Kani, complete). DnaString::from_acgt_bytes_hashn is proved as a whole function, for every input (Verus unit hashn, rule R20): the result has one base per byte; A/C/G/T in either case give 0/1/2/3; every other byte gives a base < 4 that is a function of the read name and the position only (finish of a hasher fed exactly the read name and the position) - hence repeatable and independent of the vector path, the other bytes and the string length.",
